@@ -29,13 +29,17 @@ pub const PROP: PropDef = PropDef {
 #[derive(Clone, Copy, Debug, PartialEq)]
 enum Op {
     Yield,
+    /// an emission that is started (polled once) and then abandoned - what a `select!` with the
+    /// emission as one branch does when another branch wins; the item may or may not arrive, but
+    /// every later, fully awaited emission must
+    YieldAbandoned,
     YieldAll(usize),
     SelfWake,
     External,
     DropHandle,
     Return,
 }
-const OPS: &[Op] = &[Op::Yield, Op::YieldAll(0), Op::YieldAll(1), Op::YieldAll(2), Op::SelfWake, Op::External, Op::DropHandle, Op::Return];
+const OPS: &[Op] = &[Op::Yield, Op::YieldAbandoned, Op::YieldAll(0), Op::YieldAll(1), Op::YieldAll(2), Op::SelfWake, Op::External, Op::DropHandle, Op::Return];
 
 fn yield_once() -> impl Future<Output = ()> {
     let mut done = false;
@@ -59,6 +63,14 @@ async fn interp(prog: Vec<Op>, co: Yield<u32>, w: W) -> u32 {
             Op::Yield => {
                 if let Some(c) = co.as_mut() {
                     c.yield_(next).await;
+                    next += 1;
+                }
+            }
+            Op::YieldAbandoned => {
+                if let Some(c) = co.as_mut() {
+                    let f = c.yield_(next);
+                    futures::pin_mut!(f);
+                    let _ = futures::poll!(f.as_mut());
                     next += 1;
                 }
             }
@@ -138,6 +150,27 @@ pub fn emission_order(log: &[Obs]) -> Result<(), (String, String)> {
     Ok(())
 }
 
+/// Items of abandoned emissions (optional in the received sequence).
+fn optional_items(prog: &[Op]) -> Vec<u32> {
+    let mut v = vec![];
+    let mut next = 0u32;
+    let mut has_handle = true;
+    for op in prog {
+        match op {
+            Op::Yield if has_handle => next += 1,
+            Op::YieldAbandoned if has_handle => {
+                v.push(next);
+                next += 1;
+            }
+            Op::YieldAll(n) if has_handle => next += *n as u32,
+            Op::DropHandle => has_handle = false,
+            Op::Return => break,
+            _ => {}
+        }
+    }
+    v
+}
+
 /// Reference semantics: items emitted (in order) and the return value.
 fn reference(prog: &[Op]) -> (Vec<u32>, u32) {
     let mut items = vec![];
@@ -145,7 +178,7 @@ fn reference(prog: &[Op]) -> (Vec<u32>, u32) {
     let mut has_handle = true;
     for op in prog {
         match op {
-            Op::Yield => {
+            Op::Yield | Op::YieldAbandoned => {
                 if has_handle {
                     items.push(next);
                     next += 1;
@@ -419,7 +452,39 @@ fn run_gen(ctx: &RunCtx, max_len: usize) -> RunOut {
         }
     };
     exp.push(Got::End);
-    if dropped {
+    // items of abandoned emissions may be missing from what was received
+    let opt = optional_items(&prog);
+    let strip = |v: &[Got]| -> Vec<Got> { v.iter().filter(|g| !matches!(g, Got::Item(i) if opt.contains(i))).cloned().collect() };
+    let in_order = {
+        let mut last: Option<u32> = None;
+        let mut ok = true;
+        let mut seen = std::collections::HashSet::new();
+        for g in &got {
+            if let Got::Item(i) = g {
+                if last.map(|l| *i <= l).unwrap_or(false) || !seen.insert(*i) {
+                    ok = false;
+                }
+                last = Some(*i);
+            }
+        }
+        ok
+    };
+    if !opt.is_empty() {
+        if !in_order {
+            return out.fail("items received out of order or twice", format!("{prog:?}: got {got:?}"));
+        }
+        let (g2, e2) = (strip(&got), strip(&exp));
+        if dropped {
+            if !e2.starts_with(&g2) {
+                return out.fail("items received before the drop are not a prefix of the emitted sequence", format!("{prog:?}: got {got:?}, expected prefix of {exp:?} (abandoned items optional)"));
+            }
+        } else if g2 != e2 {
+            return out.fail(
+                format!("stream delivers the wrong sequence (adaptor {adaptor})"),
+                format!("{prog:?}: got {got:?}, expected {exp:?} (items {opt:?} of abandoned emissions optional)"),
+            );
+        }
+    } else if dropped {
         // an early drop: what was received must be a prefix of the expected sequence
         if !exp.starts_with(&got) {
             return out.fail("items received before the drop are not a prefix of the emitted sequence", format!("{prog:?}: got {got:?}, expected prefix of {exp:?}"));
@@ -439,6 +504,8 @@ fn run_gen(ctx: &RunCtx, max_len: usize) -> RunOut {
             emitted_before.push(n);
             match op {
                 Op::Yield if has_handle => n += 1,
+                // an abandoned emission puts no obligation on what follows it
+                Op::YieldAbandoned => {}
                 Op::YieldAll(k) if has_handle => n += k,
                 Op::DropHandle => has_handle = false,
                 Op::Return => break,
